@@ -164,6 +164,7 @@ def shim_file(meta, pkgname, pkgdir):
         L.append("func VerifRuleType(r int) int { return int(tmRuleType[r]) }")
     else:
         L.append("func VerifRuleType(r int) int { return 0 }")
+    L.append("func VerifRuleAction(r int) int { return [...]int{%s}[r] }" % ", ".join([str(r["action"]) for r in meta["rules"]] + ["-1"] * (meta["num_rules"] - len(meta["rules"]))))
     L.append("func VerifNumTokens() int { return %d }" % meta["num_tokens"])
     L.append("func VerifNumSymbols() int { return %d }" % len(meta["syms"]))
     L.append("func VerifFinal(input int) int { return [...]int{%s}[input] }" % ", ".join(map(str, meta["final_states"])))
